@@ -158,6 +158,12 @@ def _harness(c, cfg, prop):
     if not missing_liq:
         nlv_pre = br.net_liquidation_value(False)
         c.assume(nlv_pre > 0)          # ruin is C09
+        if c.mode == "conc":
+            gross = max([abs(float(x)) for x in c.scale] + [1e-300])
+            if float(nlv_pre) < 1e-6 * gross:
+                # NLV is a 1e-6 fraction of the gross exposure: weights (= value / NLV) amplify
+                # float rounding by 1e6+; the concrete comparison is numerically void
+                raise core.FloatTie("ill-conditioned account: NLV << gross exposure")
         c.record("nlv_pre", nlv_pre)
     q_before = {leg.tag: (br._holdings_quantity.get(leg.contract, 0.0)) for leg in legs}
     m_before = {leg.tag: (br._holdings_margins.get(leg.contract, 0.0)) for leg in legs}
